@@ -12,7 +12,7 @@ ASSUMPTIONS = ["polylines of 3 vertices per boundary, |coordinates| <= 1000, con
                "route graphs on 3 (quick) / 4 (thorough) lanelets with symbolic adjacency, symbolic lanelet lengths in [0.1, 100] "
                "and a symbolic range limit; no lanelet is its own successor",
                "sqrt(e) is a fresh non-negative real r with r*r = e, shared between code and oracle"]
-OUTSIDE = ["polylines with more than 3 vertices", "graphs with more than 4 lanelets", "IEEE rounding"]
+OUTSIDE = ["polylines with more than 3 vertices", "graphs with more than 4 lanelets", "IEEE rounding", "interpolation and merging of 3-D polylines (their cumulative distance is covered)"]
 STUBS = ["real numpy diff/square/sum/cumsum/searchsorted on object arrays; np.empty as object array", "shapely-lite behind Lanelet.polygon"]
 F = ["commonroad/scenario/lanelet.py:Lanelet.distance", "commonroad/scenario/lanelet.py:Lanelet._compute_polyline_cumsum_dist",
      "commonroad/scenario/lanelet.py:Lanelet.interpolate_position", "commonroad/scenario/lanelet.py:Lanelet.merge_lanelets",
@@ -50,6 +50,24 @@ def distance(V):
     V.prove("ends at the centre line's length", V.close(d[2], lens[0] + lens[1], 1e-9))
     V.prove("second entry is the first segment length", V.close(d[1], lens[0], 1e-9))
     V.prove("as many entries as vertices", len(d) == 3)
+
+
+@obligation("C20", "distance.3d", functions=F, bounds="3 vertices per polyline with a symbolic height each (a ramp): the centre line's length counts the height")
+def distance_3d(V):
+    n = 3
+    c, l, r = pts(V, "c", n), pts(V, "l", n), pts(V, "r", n)
+    z = [V.real(f"z{i}", -50, 50) for i in range(n)]
+    for i in range(n - 1):
+        dx, dy = c[i + 1][0] - c[i][0], c[i + 1][1] - c[i][1]
+        V.assume(dx * dx + dy * dy >= 1e-6, "consecutive centre vertices distinct")
+    a3 = lambda ps: np.array([[p[0], p[1], z[i]] for i, p in enumerate(ps)])  # noqa: E731
+    la = Lanelet(a3(l), a3(c), a3(r), 1)
+    d = la.distance
+    lens = [V.sqrt((c[i + 1][0] - c[i][0]) * (c[i + 1][0] - c[i][0]) + (c[i + 1][1] - c[i][1]) * (c[i + 1][1] - c[i][1]) +
+                   (z[i + 1] - z[i]) * (z[i + 1] - z[i])) for i in range(2)]
+    V.prove("3-D: starts at 0 and is non-decreasing", V.And(V.eq(d[0], 0.0), d[0] <= d[1], d[1] <= d[2]))
+    V.prove("3-D: second entry is the first segment length", V.close(d[1], lens[0], 1e-9))
+    V.prove("3-D: ends at the centre line's length", V.close(d[2], lens[0] + lens[1], 1e-9))
 
 
 @obligation("C20", "interpolate", functions=F, bounds="3 symbolic vertices per polyline; arc length anywhere in [0, length]")
